@@ -696,6 +696,21 @@ def run_c07(rep, rng, tier):
                 mods.update(mf)
             else:
                 root_decls += c.decls
+        # bindings and devices moved into a module of their own, away from the file that declares their struct (a binding that
+        # is not renamed carries the struct's name: the merge must keep it next to the struct's default binding)
+        cand = [ix for ix, dc in enumerate(root_decls) if dc["k"] in ("impl", "device")]
+        if cand and rng.random() < 0.7:
+            ix = rng.choice(cand)
+            jx = ix + 1
+            while jx < len(root_decls) and root_decls[jx]["k"] in ("impl", "device") and rng.random() < 0.5:
+                jx += 1
+            parts = [rng.choice(["bus", "io"]), rng.choice(["can", "types"]) + "0"]
+            rel = "/".join(parts) + ".fcp"
+            if rel not in mods:
+                sub = Desc()
+                sub.decls = root_decls[ix:jx]
+                mods[rel] = sub
+                root_decls = root_decls[:ix] + [{"k": "mod", "path": parts}] + root_decls[jx:]
         if not mods:
             continue
         rd = Desc()
